@@ -65,19 +65,19 @@ func (a lin) plus(k int64) lin { return a.add(linConst(k), 1) }
 func (a lin) isConst() bool    { return len(a.t) == 0 }
 
 type boundsCtx struct {
-	w       *World
-	fn      *ssa.Function
-	intBits int
-	loadRep map[*ssa.UnOp]ssa.Value
-	qinfo   map[atom]qinfo
-	names   map[atom]string
-	r       *Renderer
-	factMem map[*ssa.BasicBlock][]lin
-	rngBusy map[atom]bool
-	linMemo map[ssa.Value]lin
+	w          *World
+	fn         *ssa.Function
+	intBits    int
+	loadRep    map[*ssa.UnOp]ssa.Value
+	qinfo      map[atom]qinfo
+	names      map[atom]string
+	r          *Renderer
+	factMem    map[*ssa.BasicBlock][]lin
+	rngBusy    map[atom]bool
+	linMemo    map[ssa.Value]lin
 	inlineBusy int
-	einfo   map[atom]einfo
-	fitBusy map[ssa.Value]bool
+	einfo      map[atom]einfo
+	fitBusy    map[ssa.Value]bool
 	// substitution of parameters by caller-side terms (caller-established rule)
 	visitingPhi map[*ssa.Phi]bool
 	assumed     []lin // documented preconditions of the function (c04Assumes), as facts lin ≤ 0
